@@ -1,4 +1,4 @@
 // harness TU for SGal3 (double)
 #define HX_HAS_ROTATION 1
 #include "generic.h"
-namespace hx { void run_SGal3(const Req& r, Resp& R) { run<manif::SGal3d>(r, R); } }
+namespace hx { void run_SGal3(const Req& r, Resp& R) { run<manif::SGal3<HX_SC>>(r, R); } }
